@@ -401,7 +401,22 @@ class Inliner:
                     return n
                 mapping, setup = b
                 if setup:
-                    return n  # would need a statement context
+                    # a non-trivial argument would need a statement context -- unless it is a pure expression (no call, no
+                    # walrus): then it can stand wherever the parameter stood
+                    def pure(x: ast.AST) -> bool:
+                        return not any(isinstance(y, (ast.Call, ast.NamedExpr, ast.Await, ast.Yield, ast.YieldFrom, ast.Lambda,
+                                                      ast.ListComp, ast.SetComp, ast.DictComp, ast.GeneratorExp)) for y in ast.walk(x))
+                    stored_in_h = _locals_of(h.node)
+                    ok_all = True
+                    for st_ in setup:
+                        tmp = st_.targets[0].id
+                        p = next((k for k, v in mapping.items() if v == tmp), None)
+                        if p is None or p in stored_in_h or not pure(st_.value) or len(ast.unparse(st_.value)) > 200:
+                            ok_all = False
+                            break
+                        mapping[p] = st_.value
+                    if not ok_all:
+                        return n
                 outer.inlined.append(h.qname)
                 new = _Rename(mapping).visit(copy.deepcopy(e))
                 return ast.copy_location(outer.expand_exprs(f, new, depth + 1), n)
